@@ -335,4 +335,38 @@ theorem descendant_iff_ancestor (g : G) (hc : Coherent g) (a b : Int) :
   rw [mem_descendants_iff g hc, mem_ancestors_iff g hc, path_succs_iff_path_preds g hc]
   constructor <;> rintro ⟨h1, h2⟩ <;> exact ⟨h1, fun e => h2 e.symm⟩
 
+/-! ### `has_directed_cycle` -/
+
+theorem reach_closed_succs (g : G) (hc : Coherent g) (l : Int) :
+    Closed (succsOf g) l (reach (succsOf g) g.length [l] []) := by
+  have hU : ∀ y m, m ∈ succsOf g y → m ∈ labels g := by
+    intro y m hm
+    obtain ⟨n, hn, -, hs⟩ := (mem_succsOf hc.nodup).mp hm
+    obtain ⟨k, hk, hkl, -⟩ := hc.succ_ok n hn m hs
+    exact mem_labels.mpr ⟨k, hk, hkl⟩
+  exact reach_closed (succsOf g) l (labels g) hU g.length [l] [] (by simp) (by simp) (by simp [labels])
+    (by
+      intro y hy
+      rcases hy with h | h
+      · exact absurd h (by simp)
+      · exact Or.inl (by simp [h]))
+
+/-- The model's `has_directed_cycle` answers "yes" exactly when some node of the (coherent) network is joined to itself by a
+non-empty path of successor edges. -/
+theorem hasCycle_iff (g : G) (hc : Coherent g) :
+    hasCycle g = true ↔ ∃ l ∈ labels g, Path (succsOf g) l l := by
+  unfold hasCycle
+  rw [List.any_eq_true]
+  constructor
+  · rintro ⟨n, hn, h⟩
+    refine ⟨n.label, mem_labels.mpr ⟨n, hn, rfl⟩, ?_⟩
+    exact reach_sound (succsOf g) n.label g.length [n.label] [] (by simp) (by simp) _ (List.contains_iff_mem.mp h)
+  · rintro ⟨l, hl, hp⟩
+    obtain ⟨n, hn, rfl⟩ := mem_labels.mp hl
+    exact ⟨n, hn, List.contains_iff_mem.mpr ((reach_closed_succs g hc n.label).path hp)⟩
+
+/-- A network with an edge from a node to itself, or a two-cycle, has a directed cycle; a path network has none. -/
+example : hasCycle [⟨1, [2], [2]⟩, ⟨2, [1], [1]⟩] = true := by decide
+example : hasCycle [⟨1, [], [2]⟩, ⟨2, [1], [3]⟩, ⟨3, [2], []⟩] = false := by decide
+
 end Stockpyl.Graph
